@@ -23,7 +23,7 @@ def run(ctx):
         "later one; idle expiry with a silent and a steadily fed peer on TCP/UDP servers and on TCP/UDP clients (first connection silent, "
         "re-opened connection fed; idle timeout 300 ms); UDP client and broadcast endpoints with a fake peer; distinct = scenario shapes"))
     timed(ctx)
-    ctx.assumptions += ["timing tolerances: reconnect in [0.9 x period - 5 ms, period + 3 s], idle close in [timeout - 20 ms, timeout + 3 s]",
+    ctx.assumptions += ["timing tolerances: reconnect in [2/3 x period - 5 ms, period + 3 s], idle close in [2/3 x timeout - 5 ms, timeout + 3 s] (recorded times can be late under load)",
                         "serial devices are faked through VerifSetSerialOpenFunc (hook_needed of the property)"]
 
 
